@@ -35,6 +35,20 @@ class OddAttr(Exception):
     pass
 
 
+class Hopeless(Exception):
+    """cannot be serialised (an attribute no serializer takes) and cannot be rendered: str() raises an exception that cannot
+    be rendered either - whoever formats it for an error text or a log line gets another failure in his hands"""
+
+    def __init__(self, *a):
+        Exception.__init__(self, *a)
+        self.handle = object()
+
+    def __str__(self):
+        raise Hopeless("again")
+
+    __repr__ = __str__
+
+
 class _FlakyState:
     fails_left = 0
     made = 0
@@ -109,6 +123,12 @@ class Victim:
             raise E.SerializeError("fake serialize error")
         if kind == 7:
             raise UnicodeDecodeError("utf-8", b"\xff", 0, 1, "bad")
+        if kind == 9:
+            raise Hopeless("h")
+        if kind == 10:
+            e = BadStr("s")
+            e.attr = object()       # unserialisable AND unrenderable (by an ordinary RuntimeError)
+            raise e
         raise Exception(kind)
 
     def gen(self, n):
@@ -248,7 +268,7 @@ def build_msg(spec):
     elif base == "invoke":
         payload = ser.dumpsCall(obj, "echo", ["H%d" % spec["arg"]], {})
     elif base == "boom":
-        payload = ser.dumpsCall(obj, "boom", [spec["arg"] % 9], {})
+        payload = ser.dumpsCall(obj, "boom", [spec["arg"] % 11], {})
     elif base == "ow":
         payload = ser.dumpsCall(obj, "ow", ["HO%d" % spec["arg"]], {})
         flags |= N.FLAG_ONEWAY
@@ -263,7 +283,7 @@ def build_msg(spec):
         # (dict_to_class) before it even looks at the method
         payload = ser.dumpsCall(obj, "echo", [class_dict(spec["arg"])], {})
     elif base == "batch":
-        calls = [("echo", ["HB%d" % spec["arg"]], {}), ("boom", [spec["arg"] % 9], {}), ("echo", ["never"], {})]
+        calls = [("echo", ["HB%d" % spec["arg"]], {}), ("boom", [spec["arg"] % 11], {}), ("echo", ["never"], {})]
         payload = ser.dumpsCall(obj, "<batch>", calls, None)
         flags |= N.FLAG_BATCH
     elif base in ("invoke_daemon", "daemon_ping"):
